@@ -563,6 +563,8 @@ package xmss
 //@   loop 1 invariant currentIdx <= j && j <= newIdx && currentIdx == old(idxOf(sk)) && numElems == spec.pow2(params.h)
 //@   loop 1 invariant[C08,C02] ncalls("xmss.bdsRound", 1) == j - currentIdx && ncalls("xmss.bdsTreeHashUpdate", 1) == j - currentIdx
 //@   after xmss.bdsRound 1 assert[C08,C02] j == currentIdx + ncalls("xmss.bdsRound", 1) - 1
+//@   after xmss.bdsRound 1 assert[C08] skSeed[0:32] == old(sk[4:36]) && pubSeed[0:32] == old(sk[68:100]) && otsAddr[0] == 0 && otsAddr[1] == 0 && otsAddr[2] == 0
+//@   after xmss.bdsTreeHashUpdate 1 assert[C08] skSeed[0:32] == old(sk[4:36]) && pubSeed[0:32] == old(sk[68:100]) && otsAddr[0] == 0 && otsAddr[1] == 0 && otsAddr[2] == 0
 //@   exit[C08,C02] result == 0 ==> ncalls("xmss.bdsRound", 1) == newIdx - old(idxOf(sk)) && ncalls("xmss.bdsTreeHashUpdate", 1) == newIdx - old(idxOf(sk))
 
 //@ func xmssFastSignMessage
@@ -576,6 +578,8 @@ package xmss
 //@   exit[C06,C01] !iserr(result1) ==> result0[4:36] == R[0:32] && idx == old(idxOf(sk))
 //@   exit[C06,C01,C08] !iserr(result1) ==> result0[36+params.wotsParams.keySize:36+params.wotsParams.keySize+32*params.h] == old(bdsState.auth[0:32*params.h])
 //@   exit[C06,C01] !iserr(result1) ==> skSeed[0:32] == old(sk[4:36]) && pubSeed[0:32] == old(sk[68:100])
+//@   after xmss.bdsRound 1 assert[C08] skSeed[0:32] == old(sk[4:36]) && pubSeed[0:32] == old(sk[68:100]) && otsAddr[0] == 0 && otsAddr[1] == 0 && otsAddr[2] == 0
+//@   after xmss.bdsTreeHashUpdate 1 assert[C08] skSeed[0:32] == old(sk[4:36]) && pubSeed[0:32] == old(sk[68:100]) && otsAddr[0] == 0 && otsAddr[1] == 0 && otsAddr[2] == 0
 //@   exit[C06,C01,C08] !iserr(result1) ==> (called("xmss.bdsRound", 1) <==> idx < spec.pow2(params.h) - 1) && (called("xmss.bdsTreeHashUpdate", 1) <==> idx < spec.pow2(params.h) - 1)
 //@   assigns sk[0:4], bdsAll(bdsState)
 //@   loop 1 invariant 0 <= i && i <= n && n == 32 && idxOf(sigMsg) == idx
